@@ -872,17 +872,20 @@ def case_json(ctx, case):
             s = navis.write_json(obj, None)
             st, res = outcome(lambda: navis.read_json(s))
         # independent decoder
-        data = json.loads(s)
-        ok = isinstance(data, list) and len(data) == len(nl)
-        for n, dd in zip(nl, data if ok else []):
-            nodes = pd.DataFrame(json.loads(dd['_nodes']))
-            nodes.index = nodes.index.astype(int)
-            nodes = nodes.sort_index()
-            ok &= df_obs(nodes, NODE_COLS) == df_obs(n.nodes, NODE_COLS) and dd['id'] == n.id
-            if n.has_connectors:
-                c = pd.DataFrame(json.loads(dd['_connectors']))
-                c.index = c.index.astype(int)
-                ok &= df_obs(c.sort_index(), CONN_COLS) == df_obs(n.connectors, CONN_COLS)
+        try:
+            data = json.loads(s)
+            ok = isinstance(data, list) and len(data) == len(nl)
+            for n, dd in zip(nl, data if ok else []):
+                nodes = pd.DataFrame(json.loads(dd['_nodes']))
+                nodes.index = nodes.index.astype(int)
+                nodes = nodes.sort_index()
+                ok &= df_obs(nodes, NODE_COLS) == df_obs(n.nodes, NODE_COLS) and dd['id'] == n.id
+                if n.has_connectors:
+                    c = pd.DataFrame(json.loads(dd['_connectors']))
+                    c.index = c.index.astype(int)
+                    ok &= df_obs(c.sort_index(), CONN_COLS) == df_obs(n.connectors, CONN_COLS)
+        except (KeyError, ValueError, TypeError) as e:
+            ok = False
         ctx.oracle(bool(ok), 'independent JSON decoder: nodes / connectors / ids differ from what was written', case)
         if st == 'raise':
             ctx.oracle(False, f'read_json raises {type(res).__name__}: {res}', case)
